@@ -476,7 +476,7 @@ Example C01_src_div_rem_nonvacuous :
   pubview (snd (l_uint_div_rem 3 [1; 2; 3] [5; 6; 0])) = pubview (snd (l_uint_div_rem 3 [2 ^ 64 - 1; 0; 2 ^ 63] [0; 0; 1])).
 Proof. vm_compute. split; reflexivity. Qed.
 
-(** ** Groups added to the translator after the first 135 kernels: square root, almost-Montgomery multiplication, special-modulus
+(** ** Groups added to the translator after the first 219 kernels: square root, almost-Montgomery multiplication, special-modulus
     multiplication, signed division fronts (Src/LeakSqrtP.v, LeakAmmP.v, LeakMulModP.v, LeakIntDivP.v).
     Uint::sqrt / wrapping_sqrt and every division front rest on Uint::div_rem and the constant-time shifts, so their statement is
     up to [pubview] like that of Uint::div_rem, with the machine-checked witness that the strict trace varies.
@@ -648,4 +648,201 @@ Proof. vm_compute. reflexivity. Qed.
 Example C01_src_amm_nonvacuous :
   Nat.ltb 40 (length (snd (l_almost_montgomery_mul [0; 0] [1; 2] [3; 4] [5; 6] 7))) = true /\
   snd (l_almost_montgomery_mul [0; 0] [1; 2] [3; 4] [5; 6] 7) = snd (l_almost_montgomery_mul [9; 9] [2 ^ 64 - 1; 0] [0; 2 ^ 63] [1; 1] 0).
+Proof. vm_compute. split; reflexivity. Qed.
+
+(** ** Groups added to the translator after the 170 kernels above: Uint::cmp, the Int comparisons, the byte / hex / primitive conversions, the
+    NonZero / Odd constructors, the word-level kernels of safegcd (49 more kernels, 219 in all). tools/rs2v_leak.py mirrors the constructs these
+    needed (i8 / i64 / i128 arithmetic, nested arrays, byte slices and &str, calls through a type alias, nested function items, deferred
+    untyped lets, `loop { .. break .. }` with fuel). PUBLIC in every statement: the limb count, and the LENGTH of a byte slice / hex string
+    (hypotheses [length x1 = length x2]); the bytes and hex characters themselves, every limb and every word are secret.
+    NOT noninterferent at source level (each with a machine-checked witness; see Src/LeakSafeGcdP.v):
+      UnsatInt::mul  branches on the SIGN of its i64 multiplicand (C01_src_unsat_mul_ni assumes the signs agree; C01_src_unsat_mul_sign_visible);
+      fg             noninterferent in f, g for a PUBLIC matrix only (C01_src_fg_ni, C01_src_fg_matrix_sign_visible);
+      de             C01_src_de_refuted (the sign of md / me, computed from d, e, reaches that branch); C01_src_de_ni_given_signs: nothing else;
+      jump           C01_src_jump_refuted: it branches on `delta > 0` and (nested `min`) on the trailing zeros of g -- finding F10. l_jump takes
+                     fuel and returns option (value * trace) ([tr_of]: the trace of a run that reached the `break`);
+                     C01_src_jump_consistent: its value is g_jump's;
+      iterations     `/ 17`: up to pubview only (C01_src_iterations_ni, C01_src_iterations_strict_refuted). *)
+From CB Require Import Src.LeakCmp Src.LeakCmpP Src.LeakIntCmp Src.LeakIntCmpP Src.LeakConv Src.LeakConvP Src.LeakWrap Src.LeakWrapP Src.GenSafeGcd Src.LeakSafeGcd Src.LeakSafeGcdP.
+(** ** Src/LeakCmp.v *)
+Theorem C01_src_uint_cmp_ni : forall N lhs1 rhs1 lhs2 rhs2, snd (l_uint_cmp N lhs1 rhs1) = snd (l_uint_cmp N lhs2 rhs2).
+Proof. exact (@l_uint_cmp_ni). Qed.
+Print Assumptions C01_src_uint_cmp_ni.
+(** ** Src/LeakIntCmp.v *)
+Theorem C01_src_int_SIGN_MASK_ni : forall N, snd (l_int_SIGN_MASK N) = snd (l_int_SIGN_MASK N).
+Proof. exact (@l_int_SIGN_MASK_ni). Qed.
+Print Assumptions C01_src_int_SIGN_MASK_ni.
+Theorem C01_src_int_invert_msb_ni : forall N self1 self2, snd (l_int_invert_msb N self1) = snd (l_int_invert_msb N self2).
+Proof. exact (@l_int_invert_msb_ni). Qed.
+Print Assumptions C01_src_int_invert_msb_ni.
+Theorem C01_src_int_eq_ni : forall N lhs1 rhs1 lhs2 rhs2, snd (l_int_eq N lhs1 rhs1) = snd (l_int_eq N lhs2 rhs2).
+Proof. exact (@l_int_eq_ni). Qed.
+Print Assumptions C01_src_int_eq_ni.
+Theorem C01_src_int_lt_ni : forall N lhs1 rhs1 lhs2 rhs2, snd (l_int_lt N lhs1 rhs1) = snd (l_int_lt N lhs2 rhs2).
+Proof. exact (@l_int_lt_ni). Qed.
+Print Assumptions C01_src_int_lt_ni.
+Theorem C01_src_int_gt_ni : forall N lhs1 rhs1 lhs2 rhs2, snd (l_int_gt N lhs1 rhs1) = snd (l_int_gt N lhs2 rhs2).
+Proof. exact (@l_int_gt_ni). Qed.
+Print Assumptions C01_src_int_gt_ni.
+Theorem C01_src_int_cmp_ni : forall N lhs1 rhs1 lhs2 rhs2, snd (l_int_cmp N lhs1 rhs1) = snd (l_int_cmp N lhs2 rhs2).
+Proof. exact (@l_int_cmp_ni). Qed.
+Print Assumptions C01_src_int_cmp_ni.
+(** ** Src/LeakConv.v *)
+Theorem C01_src_uint_from_be_slice_ni : forall N bytes1 bytes2, length bytes1 = length bytes2 -> snd (l_uint_from_be_slice N bytes1) = snd (l_uint_from_be_slice N bytes2).
+Proof. exact (@l_uint_from_be_slice_ni). Qed.
+Print Assumptions C01_src_uint_from_be_slice_ni.
+Theorem C01_src_uint_from_le_slice_ni : forall N bytes1 bytes2, length bytes1 = length bytes2 -> snd (l_uint_from_le_slice N bytes1) = snd (l_uint_from_le_slice N bytes2).
+Proof. exact (@l_uint_from_le_slice_ni). Qed.
+Print Assumptions C01_src_uint_from_le_slice_ni.
+Theorem C01_src_uint_from_be_hex_ni : forall N hex1 hex2, length hex1 = length hex2 -> snd (l_uint_from_be_hex N hex1) = snd (l_uint_from_be_hex N hex2).
+Proof. exact (@l_uint_from_be_hex_ni). Qed.
+Print Assumptions C01_src_uint_from_be_hex_ni.
+Theorem C01_src_uint_from_le_hex_ni : forall N hex1 hex2, length hex1 = length hex2 -> snd (l_uint_from_le_hex N hex1) = snd (l_uint_from_le_hex N hex2).
+Proof. exact (@l_uint_from_le_hex_ni). Qed.
+Print Assumptions C01_src_uint_from_le_hex_ni.
+Theorem C01_src_uint_from_u16_ni : forall N n1 n2, snd (l_uint_from_u16 N n1) = snd (l_uint_from_u16 N n2).
+Proof. exact (@l_uint_from_u16_ni). Qed.
+Print Assumptions C01_src_uint_from_u16_ni.
+Theorem C01_src_uint_from_u32_ni : forall N n1 n2, snd (l_uint_from_u32 N n1) = snd (l_uint_from_u32 N n2).
+Proof. exact (@l_uint_from_u32_ni). Qed.
+Print Assumptions C01_src_uint_from_u32_ni.
+Theorem C01_src_uint_from_u64_ni : forall N n1 n2, snd (l_uint_from_u64 N n1) = snd (l_uint_from_u64 N n2).
+Proof. exact (@l_uint_from_u64_ni). Qed.
+Print Assumptions C01_src_uint_from_u64_ni.
+Theorem C01_src_uint_from_u128_ni : forall N n1 n2, snd (l_uint_from_u128 N n1) = snd (l_uint_from_u128 N n2).
+Proof. exact (@l_uint_from_u128_ni). Qed.
+Print Assumptions C01_src_uint_from_u128_ni.
+Theorem C01_src_int_from_be_hex_ni : forall N hex1 hex2, length hex1 = length hex2 -> snd (l_int_from_be_hex N hex1) = snd (l_int_from_be_hex N hex2).
+Proof. exact (@l_int_from_be_hex_ni). Qed.
+Print Assumptions C01_src_int_from_be_hex_ni.
+(** ** Src/LeakWrap.v *)
+Theorem C01_src_uint_to_nz_ni : forall N self1 self2, snd (l_uint_to_nz N self1) = snd (l_uint_to_nz N self2).
+Proof. exact (@l_uint_to_nz_ni). Qed.
+Print Assumptions C01_src_uint_to_nz_ni.
+Theorem C01_src_uint_to_odd_ni : forall N self1 self2, snd (l_uint_to_odd N self1) = snd (l_uint_to_odd N self2).
+Proof. exact (@l_uint_to_odd_ni). Qed.
+Print Assumptions C01_src_uint_to_odd_ni.
+Theorem C01_src_int_to_nz_ni : forall N self1 self2, snd (l_int_to_nz N self1) = snd (l_int_to_nz N self2).
+Proof. exact (@l_int_to_nz_ni). Qed.
+Print Assumptions C01_src_int_to_nz_ni.
+Theorem C01_src_int_to_odd_ni : forall N self1 self2, snd (l_int_to_odd N self1) = snd (l_int_to_odd N self2).
+Proof. exact (@l_int_to_odd_ni). Qed.
+Print Assumptions C01_src_int_to_odd_ni.
+Theorem C01_src_odd_uint_from_be_hex_ni : forall N hex1 hex2, length hex1 = length hex2 -> snd (l_odd_uint_from_be_hex N hex1) = snd (l_odd_uint_from_be_hex N hex2).
+Proof. exact (@l_odd_uint_from_be_hex_ni). Qed.
+Print Assumptions C01_src_odd_uint_from_be_hex_ni.
+Theorem C01_src_odd_uint_from_le_hex_ni : forall N hex1 hex2, length hex1 = length hex2 -> snd (l_odd_uint_from_le_hex N hex1) = snd (l_odd_uint_from_le_hex N hex2).
+Proof. exact (@l_odd_uint_from_le_hex_ni). Qed.
+Print Assumptions C01_src_odd_uint_from_le_hex_ni.
+(** ** Src/LeakSafeGcd.v *)
+Theorem C01_src_cc_as_u64_mask_ni : forall self1 self2, snd (l_cc_as_u64_mask self1) = snd (l_cc_as_u64_mask self2).
+Proof. exact (@l_cc_as_u64_mask_ni). Qed.
+Print Assumptions C01_src_cc_as_u64_mask_ni.
+Theorem C01_src_cc_from_u64_lsb_ni : forall value1 value2, snd (l_cc_from_u64_lsb value1) = snd (l_cc_from_u64_lsb value2).
+Proof. exact (@l_cc_from_u64_lsb_ni). Qed.
+Print Assumptions C01_src_cc_from_u64_lsb_ni.
+Theorem C01_src_cc_from_u64_nonzero_ni : forall value1 value2, snd (l_cc_from_u64_nonzero value1) = snd (l_cc_from_u64_nonzero value2).
+Proof. exact (@l_cc_from_u64_nonzero_ni). Qed.
+Print Assumptions C01_src_cc_from_u64_nonzero_ni.
+Theorem C01_src_cc_from_u64_eq_ni : forall x1 y1 x2 y2, snd (l_cc_from_u64_eq x1 y1) = snd (l_cc_from_u64_eq x2 y2).
+Proof. exact (@l_cc_from_u64_eq_ni). Qed.
+Print Assumptions C01_src_cc_from_u64_eq_ni.
+Theorem C01_src_cc_from_u64_lt_ni : forall x1 y1 x2 y2, snd (l_cc_from_u64_lt x1 y1) = snd (l_cc_from_u64_lt x2 y2).
+Proof. exact (@l_cc_from_u64_lt_ni). Qed.
+Print Assumptions C01_src_cc_from_u64_lt_ni.
+Theorem C01_src_cc_from_u64_gt_ni : forall x1 y1 x2 y2, snd (l_cc_from_u64_gt x1 y1) = snd (l_cc_from_u64_gt x2 y2).
+Proof. exact (@l_cc_from_u64_gt_ni). Qed.
+Print Assumptions C01_src_cc_from_u64_gt_ni.
+Theorem C01_src_cc_select_u64_ni : forall self1 a1 b1 self2 a2 b2, snd (l_cc_select_u64 self1 a1 b1) = snd (l_cc_select_u64 self2 a2 b2).
+Proof. exact (@l_cc_select_u64_ni). Qed.
+Print Assumptions C01_src_cc_select_u64_ni.
+Theorem C01_src_inv_mod2_62_ni : forall value1 value2, snd (l_inv_mod2_62 value1) = snd (l_inv_mod2_62 value2).
+Proof. exact (@l_inv_mod2_62_ni). Qed.
+Print Assumptions C01_src_inv_mod2_62_ni.
+Theorem C01_src_unsat_LIMB_BITS_ni : forall N, snd (l_unsat_LIMB_BITS N) = snd (l_unsat_LIMB_BITS N).
+Proof. exact (@l_unsat_LIMB_BITS_ni). Qed.
+Print Assumptions C01_src_unsat_LIMB_BITS_ni.
+Theorem C01_src_unsat_MASK_ni : forall N, snd (l_unsat_MASK N) = snd (l_unsat_MASK N).
+Proof. exact (@l_unsat_MASK_ni). Qed.
+Print Assumptions C01_src_unsat_MASK_ni.
+Theorem C01_src_unsat_MINUS_ONE_ni : forall N, snd (l_unsat_MINUS_ONE N) = snd (l_unsat_MINUS_ONE N).
+Proof. exact (@l_unsat_MINUS_ONE_ni). Qed.
+Print Assumptions C01_src_unsat_MINUS_ONE_ni.
+Theorem C01_src_unsat_ZERO_ni : forall N, snd (l_unsat_ZERO N) = snd (l_unsat_ZERO N).
+Proof. exact (@l_unsat_ZERO_ni). Qed.
+Print Assumptions C01_src_unsat_ZERO_ni.
+Theorem C01_src_unsat_ONE_ni : forall N, snd (l_unsat_ONE N) = snd (l_unsat_ONE N).
+Proof. exact (@l_unsat_ONE_ni). Qed.
+Print Assumptions C01_src_unsat_ONE_ni.
+Theorem C01_src_unsat_is_negative_ni : forall N self1 self2, snd (l_unsat_is_negative N self1) = snd (l_unsat_is_negative N self2).
+Proof. exact (@l_unsat_is_negative_ni). Qed.
+Print Assumptions C01_src_unsat_is_negative_ni.
+Theorem C01_src_unsat_lowest_ni : forall N self1 self2, snd (l_unsat_lowest N self1) = snd (l_unsat_lowest N self2).
+Proof. exact (@l_unsat_lowest_ni). Qed.
+Print Assumptions C01_src_unsat_lowest_ni.
+Theorem C01_src_unsat_add_ni : forall N self1 other1 self2 other2, snd (l_unsat_add N self1 other1) = snd (l_unsat_add N self2 other2).
+Proof. exact (@l_unsat_add_ni). Qed.
+Print Assumptions C01_src_unsat_add_ni.
+Theorem C01_src_unsat_mul_ni : forall N self1 other1 self2 other2, Z.ltb other1 0 = Z.ltb other2 0 -> snd (l_unsat_mul N self1 other1) = snd (l_unsat_mul N self2 other2).
+Proof. exact (@l_unsat_mul_ni). Qed.
+Print Assumptions C01_src_unsat_mul_ni.
+Theorem C01_src_unsat_mul_sign_visible : exists N self other1 other2, snd (l_unsat_mul N self other1) <> snd (l_unsat_mul N self other2).
+Proof. exact (@l_unsat_mul_sign_visible). Qed.
+Print Assumptions C01_src_unsat_mul_sign_visible.
+Theorem C01_src_unsat_neg_ni : forall N self1 self2, snd (l_unsat_neg N self1) = snd (l_unsat_neg N self2).
+Proof. exact (@l_unsat_neg_ni). Qed.
+Print Assumptions C01_src_unsat_neg_ni.
+Theorem C01_src_unsat_shr_ni : forall N self1 self2, snd (l_unsat_shr N self1) = snd (l_unsat_shr N self2).
+Proof. exact (@l_unsat_shr_ni). Qed.
+Print Assumptions C01_src_unsat_shr_ni.
+Theorem C01_src_unsat_eq_ni : forall N self1 other1 self2 other2, snd (l_unsat_eq N self1 other1) = snd (l_unsat_eq N self2 other2).
+Proof. exact (@l_unsat_eq_ni). Qed.
+Print Assumptions C01_src_unsat_eq_ni.
+Theorem C01_src_unsat_select_ni : forall N a1 b1 choice1 a2 b2 choice2, snd (l_unsat_select N a1 b1 choice1) = snd (l_unsat_select N a2 b2 choice2).
+Proof. exact (@l_unsat_select_ni). Qed.
+Print Assumptions C01_src_unsat_select_ni.
+Theorem C01_src_fg_ni : forall N t f1 g1 f2 g2, snd (l_fg N f1 g1 t) = snd (l_fg N f2 g2 t).
+Proof. exact (@l_fg_ni). Qed.
+Print Assumptions C01_src_fg_ni.
+Theorem C01_src_fg_matrix_sign_visible : exists N f g t1 t2, snd (l_fg N f g t1) <> snd (l_fg N f g t2).
+Proof. exact (@l_fg_matrix_sign_visible). Qed.
+Print Assumptions C01_src_fg_matrix_sign_visible.
+Theorem C01_src_de_ni_given_signs : forall N modulus inverse t d1 e1 d2 e2, Z.ltb (fst (de_md_me N inverse t d1 e1)) 0 = Z.ltb (fst (de_md_me N inverse t d2 e2)) 0 ->
+  Z.ltb (snd (de_md_me N inverse t d1 e1)) 0 = Z.ltb (snd (de_md_me N inverse t d2 e2)) 0 ->
+  snd (l_de N modulus inverse t d1 e1) = snd (l_de N modulus inverse t d2 e2).
+Proof. exact (@l_de_ni_given_signs). Qed.
+Print Assumptions C01_src_de_ni_given_signs.
+Theorem C01_src_de_refuted : exists N modulus inverse t d1 e1 d2 e2, snd (l_de N modulus inverse t d1 e1) <> snd (l_de N modulus inverse t d2 e2).
+Proof. exact (@l_de_refuted). Qed.
+Print Assumptions C01_src_de_refuted.
+Theorem C01_src_jump_refuted : exists fuel f g1 g2 delta,
+  l_jump fuel f g1 delta <> None /\ l_jump fuel f g2 delta <> None /\ tr_of (l_jump fuel f g1 delta) <> tr_of (l_jump fuel f g2 delta).
+Proof. exact (@l_jump_refuted). Qed.
+Print Assumptions C01_src_jump_refuted.
+Theorem C01_src_jump_delta_visible : exists fuel f g delta1 delta2,
+  l_jump fuel f g delta1 <> None /\ l_jump fuel f g delta2 <> None /\ tr_of (l_jump fuel f g delta1) <> tr_of (l_jump fuel f g delta2).
+Proof. exact (@l_jump_delta_visible). Qed.
+Print Assumptions C01_src_jump_delta_visible.
+Theorem C01_src_unsat_leading_zeros_ni : forall N self1 self2, snd (l_unsat_leading_zeros N self1) = snd (l_unsat_leading_zeros N self2).
+Proof. exact (@l_unsat_leading_zeros_ni). Qed.
+Print Assumptions C01_src_unsat_leading_zeros_ni.
+Theorem C01_src_unsat_bits_ni : forall N self1 self2, snd (l_unsat_bits N self1) = snd (l_unsat_bits N self2).
+Proof. exact (@l_unsat_bits_ni). Qed.
+Print Assumptions C01_src_unsat_bits_ni.
+Theorem C01_src_iterations_ni : forall f_bits1 g_bits1 f_bits2 g_bits2, pubview (snd (l_iterations f_bits1 g_bits1)) = pubview (snd (l_iterations f_bits2 g_bits2)).
+Proof. exact (@l_iterations_pv). Qed.
+Print Assumptions C01_src_iterations_ni.
+Theorem C01_src_iterations_strict_refuted : exists f1 g1 f2 g2, snd (l_iterations f1 g1) <> snd (l_iterations f2 g2).
+Proof. exact (@l_iterations_strict_refuted). Qed.
+Print Assumptions C01_src_iterations_strict_refuted.
+Theorem C01_src_jump_consistent : forall fuel f g delta, option_map fst (l_jump fuel f g delta) = g_jump fuel f g delta.
+Proof. exact l_jump_fst. Qed.
+Print Assumptions C01_src_jump_consistent.
+
+(** ** the new traces are not trivial *)
+Example C01_src_uint_cmp_trace : snd (l_uint_cmp 2 [1; 2] [3; 4]) = [ev_trip 2; ev_ix 0; ev_ix 0; ev_ix 1; ev_ix 1].
+Proof. vm_compute. reflexivity. Qed.
+Example C01_src_from_be_hex_nonvacuous :
+  Nat.ltb 40 (length (snd (l_uint_from_be_hex 1 [48; 49; 50; 51; 52; 53; 54; 55; 56; 57; 97; 98; 99; 100; 101; 102]))) = true /\
+  snd (l_uint_from_be_hex 1 [48; 49; 50; 51; 52; 53; 54; 55; 56; 57; 97; 98; 99; 100; 101; 102]) = snd (l_uint_from_be_hex 1 (repeat 70 16)).
 Proof. vm_compute. split; reflexivity. Qed.
